@@ -246,6 +246,7 @@ def run(pm, ctx):
     ctx.rule("C03-e", "each step back-propagates the GEMINI gradient of the very batch that was forwarded", floor=6)
     ctx.rule("C03-f", "the optimiser must update the arrays the model predicts with", floor=30)
     ctx.rule("C03-g", "directions are descent directions of -GEMINI + penalty", floor=12)
+    ctx.rule("C03-h", "the penalty term of the direction is the gradient of the documented penalty (l2: 2*reg*W; kernel-weighted l2: 2*reg*K@W)", floor=2)
 
     concrete = pm.concrete_estimators()
     # representative concrete estimator per _compute_grads definition
@@ -284,6 +285,39 @@ def run(pm, ctx):
             else:
                 ctx.ok("C03-a", site)
         for st in pen:
+            if ci.name == "KernelRIM":
+                site_h = f"{qn}: penalty closed form"
+                from ..match import resolve_expr
+                full = resolve_expr(cfg, st, st.value)
+                kern = [n for n in ast.walk(full) if (isinstance(n, ast.Call) and (call_name(n) or "").split(".")[-1] in ("dot", "matmul")) or
+                        (isinstance(n, ast.BinOp) and isinstance(n.op, ast.MatMult))]
+                if len(kern) != 1:
+                    ctx.unrecognised("C03-h", site_h, f"cannot isolate the K @ W product in {norm_src(full)}")
+                else:
+                    k = kern[0]
+                    a0, a1 = (k.args[0], k.args[1]) if isinstance(k, ast.Call) else (k.left, k.right)
+                    prod_ok = attr_chain(a1) == "self.W_" and (attr_chain(a0) or "").startswith("self.") and "kernel" in (attr_chain(a0) or "")
+                    try:
+                        from ..e6_algebra import to_rat
+                        okf = to_rat(full).equals(to_rat(ast.parse(f"2 * self.reg * PROD", mode="eval").body, env=None, atom_of=lambda n: "PROD" if n is k else norm_src(n))) \
+                            if False else None
+                    except Exception:
+                        okf = None
+                    # canonical comparison with the product as one atom
+                    from ..e6_algebra import to_rat, NotScalarArithmetic
+                    try:
+                        lhs = to_rat(full, atom_of=lambda n: "PROD" if n is k else norm_src(n))
+                        rhs = to_rat(ast.parse("2 * self.reg * PROD", mode="eval").body)
+                        okf = lhs.equals(rhs)
+                    except NotScalarArithmetic:
+                        okf = None
+                    if okf is None:
+                        ctx.unrecognised("C03-h", site_h, f"penalty {norm_src(full)} is not a scalar multiple of K @ W")
+                    elif okf and prod_ok and isinstance(st.op, ast.Add):
+                        ctx.ok("C03-h", site_h, f"{norm_src(full)} == 2*reg*(training kernel @ W_)")
+                    else:
+                        ctx.violation("C03-h", unit.relpath, qn, norm_src(st)[:160], f"the penalty gradient is {norm_src(full)}; the documented penalty reg*tr(W'KW) has gradient "
+                                      f"2*reg*K@W with K the stored training kernel", line=st.lineno, site=site_h)
             stmts, read = slice_names(cfg, st, list(cfg.uses(st) - {R}))
             others = sorted(set(gvars) & read)
             site = f"{qn}: penalty {norm_src(st.target)}"
@@ -377,6 +411,12 @@ def run(pm, ctx):
         neg = any(isinstance(n, ast.UnaryOp) and isinstance(n.op, ast.USub) for n in ast.walk(st.value))
         upd = [n for n in ast.walk(uf) if isinstance(n, ast.Call) and (call_name(n) or "").endswith("update_params")]
         before = upd and st.lineno < upd[0].lineno
+        from ..match import canon_equal
+        if canon_equal(st.value, "2 * self.reg * self.W_"):
+            ctx.ok("C03-h", "RIM._update_weights: penalty closed form", "2*reg*W_ = d/dW reg*||W||^2")
+        else:
+            ctx.violation("C03-h", rim.unit.relpath, "RIM._update_weights", norm_src(st), f"the penalty gradient is {norm_src(st.value)}, not 2*reg*W_ (gradient of reg*||W||^2)",
+                          line=st.lineno, site="RIM._update_weights: penalty closed form")
         if ok_idx and ok_tgt and isinstance(st.op, ast.Add) and not neg and before:
             ctx.ok("C03-g", site)
             ctx.ok("C03-a", site)
@@ -399,8 +439,8 @@ def run(pm, ctx):
                     log.append((st, fr, value, events, b))
             I, obj, res = fit_scenario(pm, K, batch=batch, hooks={"stmt_hook": hook})
             site = f"{K.name}.fit[batch={batch}]"
-            evs = [e for e in dedup_events(nonusage(I.events)) if e.kind == "axis-mismatch"
-                   and any(q.endswith("_compute_grads") or q.endswith("_update_weights") for q in e.ctxpath)]
+            evs = [e for e in dedup_events(nonusage(I.events)) if e.kind in ("axis-mismatch", "fancy-inplace")
+                   and any(q.endswith("_compute_grads") or q.endswith("_update_weights") or q.endswith("intercept_grads") for q in e.ctxpath)]
             for e in evs:
                 st = e.stmt()
                 ctx.violation("C03-c", e.unit.relpath, e.func, norm_src(st) if st is not None else "?", f"{e.msg} [{K.name}, batch={batch}]",
@@ -440,6 +480,48 @@ def run(pm, ctx):
                 ctx.ok("C03-d", site, f"{nstm} back-propagation statements, none mixes rows")
             else:
                 ctx.undecided_site("C03-d", site, "_compute_grads was not reached")
+
+    # ---- the same shape / row rules on a must-link / cannot-link decorated model
+    from ..e3_axes import Lst, Tup
+    mu = pm.unit("gemclus.mlcl")
+    I = Interp(pm)
+    obj = symbolic_estimator(I, pm.classes["MLPModel"], "int")
+    pairs = Lst(elem=Tup([Num("i", space=Ax("N")), Num("i", space=Ax("N"))]), length=Ax("P"))
+    I.call_function(mu, mu.func("add_mlcl_constraint"), [obj, pairs, pairs, Num("f")], {}, qual="add_mlcl_constraint")
+    X, Y = data_XY()
+    I.call_method(obj, "fit", [X, Y])
+    site = "mlcl-decorated MLPModel.fit[batch=int]"
+    evs = [e for e in dedup_events(nonusage(I.events)) if e.kind in ("axis-mismatch", "fancy-inplace", "index-space")
+           and any("intercept_grads" in q or q.endswith("_compute_grads") or q.endswith("_update_weights") for q in e.ctxpath)]
+    for e in evs:
+        st = e.stmt()
+        ctx.violation("C03-c", e.unit.relpath, e.func, norm_src(st)[:160] if st is not None else "?", f"[{e.kind}] {e.msg}", line=getattr(e.node, "lineno", None), site=site)
+    if not evs:
+        if I.update_params_checks and all(r["ok"] for r in I.update_params_checks):
+            ctx.ok("C03-c", site, "constraint terms injected row-wise, gradients aligned with the weights")
+        else:
+            ctx.undecided_site("C03-c", site, "update_params not reached / not typed")
+
+    # ---- Douglas: the cut gradient computed in sorted order is mapped back to the cuts' own order
+    ctx.rule("C03-i", "each Douglas cut point must receive its own gradient, not the one of the cut at its sorted position", floor=1)
+    dg = pm.classes["Douglas"].methods["_compute_grads"]
+    cfgd = CFG(dg)
+    back = [s for s in cfgd.nodes if isinstance(s, ast.Assign) and isinstance(s.value, ast.Subscript) and any(isinstance(n, ast.Attribute) and n.attr == "_all_orders" for n in ast.walk(s.value.slice))]
+    if len(back) != 1:
+        ctx.unrecognised("C03-i", "Douglas._compute_grads: un-sorting", "no single re-indexing by the retained sort orders")
+    else:
+        idx = back[0].value.slice
+        n_arg = 0
+        cur = idx
+        while isinstance(cur, ast.Call) and (call_name(cur) or "").split(".")[-1] == "argsort" and len(cur.args) == 1:
+            n_arg += 1
+            cur = cur.args[0]
+        if n_arg % 2 == 1:
+            ctx.ok("C03-i", "Douglas._compute_grads: un-sorting", f"re-indexed by argsort(order) ({n_arg} argsort on the retained order)")
+        else:
+            ctx.violation("C03-i", pm.classes["Douglas"].unit.relpath, "Douglas._compute_grads", norm_src(back[0]), "the sorted-space cut gradient is re-indexed by the sorting "
+                          "permutation itself, not by its inverse: with 3 or more cuts a cut receives another cut's gradient", line=back[0].lineno,
+                          site="Douglas._compute_grads: un-sorting")
 
     # ---------------------------------------------------------------- e loop protocol
     loop_protocol(pm, ctx)
